@@ -102,15 +102,38 @@ func values(name string) []interface{} {
 	v1 := mustVer("1.0-1")
 	switch name {
 	case "S":
-		return []interface{}{"", "x", "two words"}
+		out := []interface{}{"", "x", "two words"}
+		for _, t := range gen.AuditStrings(func(s string) bool { return gen.OneLine(s) && strings.TrimSpace(s) == s }, 3) {
+			out = append(out, t) // alphabet audit
+		}
+		return out
 	case "I":
-		return []interface{}{0, 7, -3}
+		out := []interface{}{0, 7, -3}
+		for _, v := range gen.AuditInts(-1<<31, 1<<31, 6) {
+			out = append(out, int(v), int(-v))
+		}
+		return out
 	case "U":
-		return []interface{}{uint(0), uint(5), uint(3000000000)}
+		out := []interface{}{uint(0), uint(5), uint(3000000000)}
+		for _, v := range gen.AuditInts(0, 1<<62, 6) {
+			out = append(out, uint(v))
+		}
+		return out
 	case "B":
 		return []interface{}{false, true}
 	case "L":
-		return []interface{}{[]string(nil), []string{"a"}, []string{"a", "b", "c"}}
+		out := []interface{}{[]string(nil), []string{"a"}, []string{"a", "b", "c"}}
+		for _, t := range gen.AuditStrings(gen.Nameish, 2) {
+			out = append(out, []string{t}, []string{"a", t, "c"})
+		}
+		for _, n := range gen.AuditInts(2, 40, 3) { // list LENGTHS around a new constant
+			l := make([]string, n)
+			for i := range l {
+				l[i] = fmt.Sprintf("e%d", i)
+			}
+			out = append(out, l)
+		}
+		return out
 	case "LC":
 		return []interface{}{[]string(nil), []string{"a b"}, []string{"a b", "c"}}
 	case "LN":
